@@ -71,6 +71,14 @@ def gen_content(r, bs, pool, big=False):
     n = max(0, r.choice(sizes))
     if kind == 2:
         return b"\0" * n                                      # all zero (sparse)
+    if kind == 3 and big:
+        # holes around blocks that are stored uncompressed: hole, noise, hole(, noise)(, tail)
+        parts = [b"\0" * bs * r.choice([1, 2]), _rand_bytes(r, bs * r.choice([1, 1, 2])), b"\0" * bs * r.choice([1, 3])]
+        if r.random() < 0.5:
+            parts.append(_rand_bytes(r, bs))
+        if r.random() < 0.5:
+            parts.append(_compressible(r, r.randrange(1, bs)))
+        return b"".join(parts)
     body = bytearray()
     nblk = n // bs
     for _ in range(nblk):
